@@ -161,6 +161,16 @@ pub broadcast group group_melvm_axioms { axiom_u256_range, axiom_u256_ext, axiom
            ),
         Fn(E_, "new", impl="Executor", home="C10", implicit_props=("C09", "C10"),
            ensures=[C("init", "res.instrs == instrs && vm_of(res) == (VM { stack: Seq::<Value>::empty(), heap: heap_init@, pc: 0, loops: Seq::<LoopState>::empty() })", "C10", "C04")]),
+        Fn(V, "from", impl=r"From<u128> for Value", wrap="impl From<u128> for Value", key=V + "::From<u128>::from", home="C10", implicit_props=("C09", "C10")),
+        Fn(V, "from", impl=r"From<u64> for Value", wrap="impl From<u64> for Value", key=V + "::From<u64>::from", home="C10", implicit_props=("C09", "C10")),
+        Fn(V, "from", impl=r"From<\[u8; 32\]> for Value", wrap="impl From<[u8; 32]> for Value", key=V + "::From<[u8; 32]>::from", home="C10", implicit_props=("C09", "C10")),
+        Fn(V, "from", impl=r"From<HashVal> for Value", wrap="impl From<HashVal> for Value", key=V + "::From<HashVal>::from", home="C10", implicit_props=("C09", "C10")),
+        Fn(V, "from", impl=r"From<Bytes> for Value", wrap="impl From<Bytes> for Value", key=V + "::From<Bytes>::from", home="C10", implicit_props=("C09", "C10")),
+        Fn(V, "from", impl=r"From<CoinID> for Value", wrap="impl From<CoinID> for Value", key=V + "::From<CoinID>::from", home="C10", implicit_props=("C09", "C10")),
+        Fn(V, "from", impl=r"From<CoinData> for Value", wrap="impl From<CoinData> for Value", key=V + "::From<CoinData>::from", home="C10", implicit_props=("C09", "C10")),
+        Fn(V, "from", impl=r"From<CoinDataHeight> for Value", wrap="impl From<CoinDataHeight> for Value", key=V + "::From<CoinDataHeight>::from", home="C10", implicit_props=("C09", "C10")),
+        Fn(V, "from", impl=r"From<Header> for Value", wrap="impl From<Header> for Value", key=V + "::From<Header>::from", home="C10", implicit_props=("C09", "C10", "C04")),
+        Fn(V, "from", impl=r"From<Transaction> for Value", wrap="impl From<Transaction> for Value", key=V + "::From<Transaction>::from", home="C10", implicit_props=("C09", "C10", "C04")),
         TypeItem("lib/melvm/src/lib.rs", "struct", "CovenantEnv"),
         TypeItem("lib/melvm/src/consts.rs", "const", "HADDR_SPENDER_TX"),
         TypeItem("lib/melvm/src/consts.rs", "const", "HADDR_SPENDER_TXHASH"),
